@@ -179,3 +179,56 @@ def local_value_of_ref(S, t):
         if not vals and 1 <= l <= S.sg.ctxs[cx].fn['arg_count']:
             return S.param_value(cx, l)
     return None
+
+
+def run_witnesses(R, here, wanted, rule):
+    """Thorough tier: compile-fail witnesses (rustdoc compile_fail with error codes, nightly) and their compiling
+    twins.  `wanted` maps witness struct name -> description.  A witness that now compiles is a violation; a twin that no
+    longer compiles makes the witness unusable (abstain)."""
+    import os
+    import re
+    import subprocess
+    cache = os.path.join(here, '.work', 'witness-%s.txt' % _repo_tag())
+    if os.path.exists(cache):
+        out = open(cache).read()
+    else:
+        env = dict(os.environ)
+        env['CARGO_NET_OFFLINE'] = 'true'
+        r = subprocess.run([os.path.join(here, 'tools', 'witness.sh')], capture_output=True, text=True, env=env)
+        out = r.stdout + r.stderr
+        try:
+            open(cache, 'w').write(out)
+        except OSError:
+            pass
+    res = {}
+    for m in re.finditer(r'^test src/lib\.rs - (\w+) \(line \d+\)( - compile fail)? \.\.\. (\w+)', out, re.M):
+        res[(m.group(1), bool(m.group(2)))] = m.group(3)
+    for name, what in wanted.items():
+        cf = res.get((name, True))
+        twin = res.get((name, False))
+        if cf is None or twin is None:
+            R.abstain(rule, 'witness:%s' % name, 'witness did not run (%s / %s)' % (cf, twin), 'witness/src/lib.rs')
+        elif twin != 'ok':
+            R.abstain(rule, 'witness:%s' % name, 'the compiling twin of the witness no longer compiles - witness unusable', 'witness/src/lib.rs')
+        else:
+            R.check(cf == 'ok', rule, 'witness:%s' % name, 'witness/src/lib.rs', '%s: rejected by the compiler (twin compiles)' % what,
+                    '%s: the offending program now COMPILES (its twin differs only by the offending line)' % what)
+
+
+def _repo_tag():
+    import hashlib
+    import os
+    repo = os.environ.get('VERIF_REPO', '/repo')
+    h = hashlib.sha256()
+    for root, dirs, files in os.walk(os.path.join(repo, 'src')):
+        dirs.sort()
+        for f in sorted(files):
+            p = os.path.join(root, f)
+            h.update(p.encode())
+            h.update(open(p, 'rb').read())
+    wl = os.path.join(os.path.dirname(os.path.dirname(os.path.dirname(os.path.abspath(__file__)))), 'witness', 'src', 'lib.rs')
+    try:
+        h.update(open(wl, 'rb').read())
+    except OSError:
+        pass
+    return h.hexdigest()[:16]
